@@ -31,6 +31,7 @@ def totalA (ds : List (Nat × Nat)) : Nat := (ds.map (·.2)).sum
 theorem atTime_self (n : Node) : atTime n n.s.now = n := rfl
 theorem advance_upd (n : Node) (t d : Nat) (tp : Nat → TpDev) (sl : List Slot) (out : List Delivery) (fs rxq : List Frame) :
     advance ((atTime n t).upd tp sl out fs rxq) d = (atTime n (t + d)).upd tp sl out fs rxq := rfl
+theorem Lead.atTime {n : Node} {d : Dev} (h : Lead n d) (t : Nat) : Lead (atTime n t) d := ⟨h.dev0, h.others, h.claims⟩
 theorem atTime_quiet {n : Node} {i : Nat} (t : Nat) (h : Quiet n.s i) : Quiet (atTime n t).s i :=
   ⟨h.dev, h.notListen, h.active, h.ringEmpty, h.script, h.dflt, h.notFpCM, h.notFpDT⟩
 theorem txTp_atTime (n : Node) (t : Nat) (m : Msg) (seq t0 tmo : Nat) : txTp (atTime n t) m seq t0 tmo = txTp n m seq t0 tmo := rfl
@@ -50,8 +51,8 @@ def snd (tA k : Nat) : Node :=
 
 /-- hypotheses of the exchange (`m` is the pending message, i.e. with the sender's address as source) -/
 structure LinkHyp : Prop where
-  devA : a.s.devs = [da]
-  devB : b.s.devs = [db]
+  devA : Lead a da
+  devB : Lead b db
   qa : Quiet a.s 0
   qb : Quiet b.s 0
   bIdle : (b.tp 0).hasPending = false
@@ -71,12 +72,10 @@ structure LinkHyp : Prop where
 variable {a b da db m j S' a0}
 
 theorem LinkHyp.srcA (h : LinkHyp a b da db m j S' a0) : da.source ≤ 251 := by
-  obtain ⟨d', hd', hs, _⟩ := h.qa.dev
-  rw [h.devA] at hd'; simp at hd'; subst hd'; exact hs
+  exact h.devA.src h.qa
 
 theorem LinkHyp.dstB (h : LinkHyp a b da db m j S' a0) : db.source ≤ 251 := by
-  obtain ⟨d', hd', hs, _⟩ := h.qb.dev
-  rw [h.devB] at hd'; simp at hd'; subst hd'; exact hs
+  exact h.devB.src h.qb
 
 theorem LinkHyp.none (h : LinkHyp a b da db m j S' a0) : findIdx (sessOf da.source db.source) S' = none := by
   rw [h.hS]
@@ -88,7 +87,7 @@ theorem LinkHyp.none (h : LinkHyp a b da db m j S' a0) : findIdx (sessOf da.sour
 theorem LinkHyp.jlt (h : LinkHyp a b da db m j S' a0) : j < S'.length := findIdx_lt _ _ _ h.hj
 
 theorem LinkHyp.at (h : LinkHyp a b da db m j S' a0) (tA tB : Nat) : LinkHyp (atTime a tA) (atTime b tB) da db m j S' a0 :=
-  ⟨h.devA, h.devB, atTime_quiet tA h.qa, atTime_quiet tB h.qb, h.bIdle, h.aInfo, h.bInfo, h.mdst, h.len9, h.len223, h.hdata, h.pgn24, h.pgn0,
+  ⟨h.devA.atTime tA, h.devB.atTime tB, atTime_quiet tA h.qa, atTime_quiet tB h.qb, h.bIdle, h.aInfo, h.bInfo, h.mdst, h.len9, h.len223, h.hdata, h.pgn24, h.pgn0,
    h.known, h.hS, h.hj, h.ha0⟩
 
 /-- first round: RTS → CTS(1) → first window (A polls less than 50 ms after `SendMsg`) -/
